@@ -48,6 +48,12 @@ pub struct Compared {
 /// Reference first (defines the claim's domain), then the engine, then the comparison of
 /// answers (count, order, each a variant). Returns Err(CaseResult) to stop the case.
 pub fn compare_answers(id: &str, p: &Program, reasks: usize) -> Result<Compared, CaseResult> {
+    compare_answers_src(id, p, None, reasks)
+}
+
+/// `texts`: when given, the engine's knowledge base is parsed from these rule texts (which
+/// must be renderings of `p.clauses`); the reference still runs on `p`.
+pub fn compare_answers_src(id: &str, p: &Program, texts: Option<&[String]>, reasks: usize) -> Result<Compared, CaseResult> {
     let reference = solve_program(p, Limits::default());
     match &reference.status {
         Status::Finished => {}
@@ -56,18 +62,20 @@ pub fn compare_answers(id: &str, p: &Program, reasks: usize) -> Result<Compared,
         Status::Occurs => return Err(CaseResult::Discard("needs occurs check".into())),
     }
     let expected: Vec<Vec<Term>> = reference.answers().into_iter().cloned().collect();
-    let run = match run_program(p, expected.len() + 5, reasks, tick_budget(reference.stats.steps)) {
-        Ok(r) => r,
+    let text_note = texts.map(|t| format!("\nsource text given to parse_rule:\n{}", t.join("\n"))).unwrap_or_default();
+    let run = match run_program_src(p, texts, expected.len() + 5, reasks, tick_budget(reference.stats.steps)) {
+        Ok(Ok(r)) => r,
+        Ok(Err(msg)) => return Err(fail("parser-rejected", format!("{}:parser-rejected", id), format!("{}{}", msg, text_note), p)),
         Err(f) => {
             let sig = format!("{}:engine:{}", id, f.signature());
-            return Err(fail("engine-failure", sig, format!("engine failed ({:?}); reference answers: {}", f, fmt_answers(&expected)), p));
+            return Err(fail("engine-failure", sig, format!("engine failed ({:?}); reference answers: {}{}", f, fmt_answers(&expected), text_note), p));
         }
     };
     let got: Vec<Vec<Term>> = run.answers.iter().map(|a| a.args.clone()).collect();
     if got.len() != expected.len() || !got.iter().zip(expected.iter()).all(|(g, e)| variant(g, e)) {
         let kind = if got.len() > expected.len() { "extra-answers" } else if got.len() < expected.len() { "missing-answers" } else { "wrong-answer" };
         return Err(fail("answers-differ", format!("{}:answers-differ:{}", id, kind),
-            format!("reference: {}\nengine:    {}{}", fmt_answers(&expected), fmt_answers(&got), if run.truncated { " ..." } else { "" }), p));
+            format!("reference: {}\nengine:    {}{}{}", fmt_answers(&expected), fmt_answers(&got), if run.truncated { " ..." } else { "" }, text_note), p));
     }
     for a in &run.answers {
         if !a.problems.is_empty() {
